@@ -39,6 +39,7 @@ def generate(rng, tier, index):
         "suffix": rng.choice([".pt", ".pt", ".t", "_s.pt"]),
         "subdirs": rng.choice([["feat", "ali", "ref"], ["feat", "ali", "ref"], ["f", "a", "r"], ["mfcc", "pdf", "txt"]]),
         "listing_seed": rng.randrange(1 << 20),
+        "vocab": rng.choice([None, 3, 3, 12]),
     }
     ops = []
     for _ in range(rng.randrange(2, 11)):
@@ -90,7 +91,7 @@ class Model:
             o = {
                 "feat": corpus.feat_tensor(i, T, sc["F"], sc["salt"]),
                 "ali": corpus.ali_tensor(i, T, sc["salt"]),
-                "ref": corpus.ref_tensor(i, R, T, sc["ref2d"], sc["salt"]),
+                "ref": corpus.ref_tensor(i, R, T, sc["ref2d"], sc["salt"], vocab=sc.get("vocab")),
             }
             self.orig[name] = o
             fn = self.fn(name)
